@@ -279,6 +279,9 @@ impl StringPool {
             writer.write_u16::<LittleEndian>((length & 0xffff) as u16)?;
             writer.write_u16::<LittleEndian>(refcount)?;
         }
+        // Make sure buffered bytes reach the medium (and any error is seen)
+        // before reporting success; dropping the stream would swallow it.
+        writer.flush()?;
         Ok(())
     }
 
@@ -287,6 +290,9 @@ impl StringPool {
         for (string, _) in self.strings.iter() {
             writer.write_all(&self.codepage.encode(string.as_str()))?;
         }
+        // Make sure buffered bytes reach the medium (and any error is seen)
+        // before reporting success; dropping the stream would swallow it.
+        writer.flush()?;
         Ok(())
     }
 }
